@@ -150,6 +150,19 @@ def history_scenarios():
     return out
 
 
+def wait_scenarios():
+    """Explicit job.wait() / experiment.wait() calls in the middle of a plan."""
+    W = lambda v: {"op": "wait", "var": v}
+    out = []
+    out.append(sc("wait:xp-mid", "wait", [[XP("xp", [J("a", 1), {"op": "waitxp"}, J("b", 2, [("a", "up")]), W("b")])]]))
+    out.append(sc("wait:failed-dep", "wait:fail", [[XP("xp", [J("a", 1, code=1), J("b", 2, [("a", "ups")]), W("b"), {"op": "waitxp"}, J("c", 3)])]]))
+    out.append(sc("wait:then-more", "wait:fail", [[XP("xp", [J("a", 1), W("a"), J("b", 2), J("c", 3, [("b", "holder")], code=1), W("c"), W("b")])]]))
+    out.append(sc("wait:failed-then-dependent", "wait:fail", [[XP("xp", [J("a", 1, code=1), J("o", 4), W("a"), W("o"), J("b", 2, [("a", "up")]),
+                                                                        J("c", 3, [("b", "ups"), ("o", "holder")]), J("d", 5, [("o", "up")])])]]))
+    out.append(sc("wait:token", "wait", [[XP("xp", [TOK("t", 1), J("a", 1, tok=[("t", 1)]), J("b", 2, tok=[("t", 1)]), W("b"), W("a"), {"op": "waitxp"}])]]))
+    return out
+
+
 def nested_scenarios():
     """Two schedulers in one process (nested experiments, as the repository's take-back tests do)."""
     out = []
@@ -263,4 +276,19 @@ def special_dep_scenarios(failing=False):
             out.append(sc(f"special:pre-on-output:{''.join(order)}:f{fb}", "special:pre-on-output" + (":fail" if fb else ""), [[XP("xp", body)]]))
     jobs = [J("a", 1, cls="jobout"), J("b", 2, cls="jobout"), J("c", 3, [("a", "oin"), ("b", "pre-o-on-oin")])]
     out.append(sc("special:pre-output-on-output", "special:pre-on-output", [[XP("xp", jobs)]]))
+    return out
+
+
+def jobkill_scenarios():
+    """A job process dies abruptly (SIGKILL / OOM: no marker, no cleanup) at every scheduling point - while its own
+    scheduler waits for it, and while a second scheduler process that found it through its pid file waits for it."""
+    out = []
+    chain = [J("a", 1), J("b", 2, [("a", "up")]), J("c", 3)]
+    out.append(sc("jobkill:own", "jobkill:own", [[XP("xp", chain)]], fine=True, kill=True, kill_pid="job:j1", expect_job_failure=[1]))
+    import copy
+    out.append(sc("jobkill:adopted", "jobkill:adopted", [[XP("xpA", [J("a", 1)])], [XP("xpB", copy.deepcopy(chain))]], fine=True, kill=True,
+                  kill_pid="job:j1", expect_job_failure=[1], markers_from_other_process=True))
+    out.append(sc("jobkill:adopted+token", "jobkill:adopted", [[XP("xpA", [TOK("t", 1), J("a", 1, tok=[("t", 1)])])],
+                                                                [XP("xpB", [TOK("t", 1), J("a", 1, tok=[("t", 1)]), J("b", 2, [("a", "ups")], tok=[("t", 1)])])]],
+                  fine=True, kill=True, kill_pid="job:j1", expect_job_failure=[1], markers_from_other_process=True))
     return out
